@@ -9,7 +9,7 @@ import (
 
 func init() {
 	register(&Prop{
-		ID: "C08",
+		ID:   "C08",
 		Rule: "G-article pages that interleave long paragraphs (usually kept), short paragraphs and link clusters (usually dropped), headings, lists, quotes and pre with media of every kind (img, lazy img, picture, figure with/without caption, video, youtube/vimeo iframe, twitter quote, data table), also inside paragraphs, list items and layout-table cells. For each media element (identified by the unique id of its URL) 'present in Result.Node' is compared with 'the last text-block token before it is in Result.Text'; at most one img/figure per page may be present although its predecessor is absent (lead image). Non-trivial = a media element observed; distinct = distinct (kind, placement, present, predecessor kept).",
 		Assumptions: []string{
 			"the nearest preceding text block of a media element is the block holding the last visible text token written before it (figure captions, table cells, embed text and hidden/skipped carriers are not text blocks)",
